@@ -7,14 +7,24 @@ use std::collections::HashMap;
 fn run_cov(recs: &[Vec<u8>], k: usize, bs: usize, bc: usize, norm: bool, threads: usize, mem: f64) -> Result<String, String> { run_cov_alt(recs, None, k, bs, bc, norm, threads, mem) }
 
 fn run_cov_alt(recs: &[Vec<u8>], alt: Option<&[Vec<u8>]>, k: usize, bs: usize, bc: usize, norm: bool, threads: usize, mem: f64) -> Result<String, String> {
+    run_cov_alt_f(recs, alt, false, k, bs, bc, norm, threads, mem)
+}
+/// `alt_fastq`: the separate counting input is a FASTQ file (alt.fq) whatever the format of the records' file
+pub fn run_cov_alt_f(recs: &[Vec<u8>], alt: Option<&[Vec<u8>]>, alt_fastq: bool, k: usize, bs: usize, bc: usize, norm: bool, threads: usize, mem: f64) -> Result<String, String> {
     let sc = Scratch::new("cov");
     let inp = sc.path(in_name());
     let outd = sc.path("out");
     std::fs::create_dir_all(&outd).unwrap();
     write_fasta(&inp, recs);
-    let altp = sc.path("alt.fa");
+    let altp = sc.path(if alt_fastq { "alt.fq" } else { "alt.fa" });
     let has_alt = alt.is_some();
-    if let Some(a) = alt { write_fasta(&altp, a); }
+    if let Some(a) = alt {
+        if alt_fastq {
+            let mut t: Vec<u8> = Vec::new();
+            for (i, r) in a.iter().enumerate() { t.extend_from_slice(format!("@a{}\n", i).as_bytes()); t.extend_from_slice(r); t.extend_from_slice(b"\n+\n"); t.extend(std::iter::repeat(b'I').take(r.len())); t.push(b'\n'); }
+            std::fs::write(&altp, t).unwrap();
+        } else { write_fasta(&altp, a); }
+    }
     let (i2, o2) = (inp.clone(), outd.clone());
     let r = guarded(move || {
         let mut c = coverage::CovComputer::new(i2, o2, k, bs, bc);
@@ -188,9 +198,11 @@ pub fn c08(o: &Opts) -> Outcome {
     {
         let recs = vec![b"ACGTACGTACGGTTTTTTTTTT".to_vec(), b"GGGGGGGGGGGGACGTACG".to_vec()];
         let alt = vec![b"TTTTTTTTTTTTTTTTTTTTTTTTT".to_vec(), b"ACGTACG".to_vec()];
-        for norm in [false, true] {
+        // ... in the same container format as the records and in another one (FASTA records, FASTQ counting input)
+        for (norm, alt_fastq) in [(false, false), (true, false), (false, true), (true, true)] {
+            if alt_fastq && !in_kind().is_empty() { continue; }
             cases += 1;
-            let out = run_cov_alt(&recs, Some(&alt), 7, 2, 4, norm, 1, 6.0);
+            let out = run_cov_alt_f(&recs, Some(&alt), alt_fastq, 7, 2, 4, norm, 1, 6.0);
             let mut counts: HashMap<u64, u64> = HashMap::new();
             for r in &alt { for (_, f, rv) in kmers_spec(r, 7) { *counts.entry(f.min(rv)).or_insert(0) += 1; } }
             let mut why = String::new();
@@ -210,7 +222,7 @@ pub fn c08(o: &Opts) -> Outcome {
                     }
                 }
             }
-            if !why.is_empty() { return Outcome { cases, witness: Some(vec![("records".into(), "ACGTACGTACGGTTTTTTTTTT|GGGGGGGGGGGGACGTACG".into()), ("alt".into(), "TTTTTTTTTTTTTTTTTTTTTTTTT|ACGTACG".into()), ("k".into(), "7".into()), ("why".into(), why)]) }; }
+            if !why.is_empty() { return Outcome { cases, witness: Some(vec![("records".into(), "ACGTACGTACGGTTTTTTTTTT|GGGGGGGGGGGGACGTACG".into()), ("alt".into(), "TTTTTTTTTTTTTTTTTTTTTTTTT|ACGTACG".into()), ("alt_format".into(), (if alt_fastq { "fastq" } else { "as the records" }).into()), ("k".into(), "7".into()), ("why".into(), why)]) }; }
         }
     }
     let rounds = if o.thorough { 60 } else { 14 };
